@@ -732,4 +732,266 @@ theorem rrunActs_inv {d R G} (cfg : Cfg) (ok : SnapOK d R G) (wf : WF d) (acts :
       exact ih r1 (rstep_inv cfg ok wf rs r1 a h hs1) hr
     · simp at hr
 
+/-! ### consequences at the end of the resumed run -/
+
+theorem rexit_all_done {d R G} (wf : WF d) (rs : RS) (h : RInv d R G rs)
+    (rank : Nat → Nat) (hrank : ∀ i j, j ∈ d.deps i → rank j < rank i)
+    (hex : rs.s.phase = .exited) : ∀ i, d.member i → rs.s.st i = .done := by
+  obtain ⟨hq, hrun, hroots⟩ := h.phase.exited hex
+  have key : ∀ n i, rank i < n → d.member i → rs.s.st i = .done := by
+    intro n
+    induction n with
+    | zero => intro i hi; omega
+    | succ n ih =>
+      intro i hi hm
+      have hdeps : ∀ j ∈ d.deps i, rs.s.st j = .done := by
+        intro j hj
+        apply ih j (by have := hrank i j hj; omega)
+        by_cases hd : d.deps j = []
+        · exact Or.inl (wf.rootsStart i j hj hd)
+        · exact Or.inr hd
+      cases hst : rs.s.st i with
+      | done => rfl
+      | failed => exact absurd hst (h.core.noFail i)
+      | out =>
+        have := (h.core.running i).mpr hst
+        rw [hrun] at this; cases this
+      | idle =>
+        exfalso
+        by_cases hnil : d.deps i = []
+        · rcases hm with hm | hm
+          · exact hroots i hm hst
+          · exact hm hnil
+        · obtain ⟨j, hj, hjr⟩ := h.core.notYet i (by simp) hst hnil
+          have ht := h.core.tokIdle i j (by simp) hst hj
+          simp only [tok, hq, List.count_nil, Nat.zero_add, hdeps j hj, if_true] at ht
+          have : 0 < (rs.s.received i).count j := by omega
+          exact hjr (List.count_pos_iff.mp this)
+  intro i
+  exact key (rank i + 1) i (by omega)
+
+/-- the value equation at every node that has run in the resumed run or had completed before the cut -/
+theorem rgood_value {d R G} (ok : SnapOK d R G) (rs : RS) (h : RInv d R G rs) (i : Nat)
+    (hi : rs.s.st i = .done ∨ G i = true) : rs.s.out i = .app i (headArgs d rs.s.out i) := by
+  rw [h.core.val i hi]
+  congr 1
+  apply fetchArgs_eq_head
+  intro c hc
+  apply good_not_nd h.core c
+  rcases hi with hi | hi
+  · exact h.core.avail i c (by simp [hi]) hc
+  · exact Or.inr (ok.Gclosed i c hi hc)
+
+/-- some action is enabled until the resumed run has ended -/
+theorem rprogress {d R G} (cfg : Cfg) (rs : RS) (h : RInv d R G rs) (r : List Nat)
+    (hph : rs.s.phase = .run r) : ∃ a rs', rstep cfg d rs a = some rs' := by
+  cases r with
+  | cons i rest =>
+    refine ⟨.start, ?_⟩
+    simp only [rstep, hph]
+    split
+    · exact ⟨_, rfl⟩
+    · split <;> exact ⟨_, rfl⟩
+  | nil =>
+    cases hq : rs.s.queue with
+    | cons p q =>
+      obtain ⟨j, i⟩ := p
+      refine ⟨.deliver, ?_⟩
+      simp only [rstep, hph, hq]
+      split
+      · split <;> exact ⟨_, rfl⟩
+      · exact ⟨_, rfl⟩
+    | nil =>
+      cases hr : rs.s.running with
+      | cons k ks =>
+        refine ⟨.complete k, ?_⟩
+        have hk : rs.s.st k = .out := (h.core.running k).mp (by simp [hr])
+        simp only [rstep, hph, hk, if_true]
+        exact ⟨_, rfl⟩
+      | nil =>
+        exact ⟨.exit, { rs with s := { rs.s with phase := .exited } }, by simp [rstep, hph, hq, hr]⟩
+
+/-! ### from a cut of the first run to the start of the resumed run -/
+
+/-- nodes that had completed before the cut -/
+def doneAt (s : S) (i : Nat) : Bool := s.st i == .done
+
+/-- when the file does not vouch for outputs that do not exist: no `_cached_inputs` of a node that
+was still running / had failed reaches the restored graph -/
+def CacheOK (rc : RCfg) (s : S) : Prop :=
+  (rc.dropInFlight = true ∨ ∀ i, s.st i ≠ .out) ∧ (rc.cache.clearOnFail = true ∨ ∀ i, s.st i ≠ .failed)
+
+theorem received_nil_of_busy {d s} (h : Core d s none) (i : Nat) (hi : s.st i ≠ .idle) :
+    s.received i = [] := by
+  cases hr : s.received i with
+  | nil => rfl
+  | cons j l =>
+    exfalso
+    have ht := h.tokens i j
+    simp only [tok, hr, List.count_cons_self, hi, and_false, if_false] at ht
+    omega
+
+theorem snapOK_of_cut {d s} (h : Core d s none) : SnapOK d s.received (doneAt s) := by
+  refine ⟨?_, ?_, ?_, ?_⟩
+  · intro i j hj; exact (mem_received_done d s h i j hj).1
+  · intro i hne
+    by_cases hi : s.st i = .idle
+    · exact h.notYet i (by simp) hi hne
+    · obtain ⟨j, hj⟩ := List.exists_mem_of_ne_nil _ hne
+      exact ⟨j, hj, by rw [received_nil_of_busy h i hi]; simp⟩
+  · intro i j hj
+    have := (mem_received_done d s h i j hj).2.1
+    simp [doneAt, this]
+  · intro i j hi hj
+    have hi' : s.st i = .done := by simpa [doneAt] using hi
+    have := h.order i j (by simp [hi']) hj
+    simp [doneAt, this]
+
+theorem resume_inv {cfg d s} (rc : RCfg) (wf : WF d) (h : Inv cfg d s) (ha : ArgsInv s)
+    (hc : CacheOK rc s) : RInv d s.received (doneAt s) (resumeFrom rc d s) := by
+  have hok := snapOK_of_cut h.core
+  refine ⟨⟨?_, ?_, ?_, ?_, ?_, ?_, ?_, ?_, ?_, ?_, ?_, ?_, ?_⟩, ⟨?_, ?_⟩, ⟨?_, ?_, ?_⟩, ?_⟩
+  · intro i; simp [resumeFrom, resumeInit, Snap.clearFlags, init]
+  · intro i j hi; simp [resumeFrom, resumeInit, Snap.clearFlags] at hi
+  · intro i j hj
+    have : j ∉ s.received i := fun hm => hj (hok.Rdeps i j hm)
+    simp [tok, resumeFrom, resumeInit, Snap.clearFlags, snapshot, init, List.count_eq_zero_of_not_mem this]
+  · intro i j _ _ _
+    simp [tok, resumeFrom, resumeInit, Snap.clearFlags, snapshot, init]
+  · intro i j hb
+    simp [resumeFrom, resumeInit, Snap.clearFlags] at hb
+  · intro i _ _ hne
+    simpa [resumeFrom, resumeInit, Snap.clearFlags, snapshot] using hok.Rmiss i hne
+  · intro i hi; cases hi
+  · intro i; simp [resumeFrom, resumeInit, Snap.clearFlags, init]
+  · simp [resumeFrom, resumeInit, init]
+  · intro i hi
+    have hd : s.st i = .done := by
+      simpa [resumeFrom, resumeInit, Snap.clearFlags, doneAt] using hi
+    simpa [resumeFrom, resumeInit, Snap.clearFlags, snapshot] using h.core.valDone i hd
+  · intro i hi; simp [resumeFrom, resumeInit, Snap.clearFlags] at hi
+  · intro i; simp [resumeFrom, resumeInit, Snap.clearFlags]
+  · simp [resumeFrom, resumeInit, init]
+  · intro r hr
+    have : r = d.starters := by
+      simpa [resumeFrom, resumeInit, init] using hr.symm
+    subst this
+    refine ⟨wf.startNodup, ?_, ?_⟩
+    · intro i hi; exact ⟨by simp [resumeFrom, resumeInit, Snap.clearFlags], hi⟩
+    · intro i hi _; exact hi
+  · intro he; simp [resumeFrom, resumeInit, init] at he
+  · intro i; simp [resumeFrom, resumeInit, Snap.clearFlags]
+  · intro i _ hG
+    have hd : s.st i = .done := by simpa [doneAt] using hG
+    have h1 := ha i hd
+    have h2 := h.core.valDone i hd
+    have : s.args i = fetchArgs d s.out i := by
+      rw [h1] at h2; injection h2
+    simp [resumeFrom, resumeInit, Snap.clearFlags, snapshot, hd, this]
+  · intro i _ hG
+    have hd : s.st i ≠ .done := by simpa [doneAt] using hG
+    simp only [resumeFrom, resumeInit, Snap.clearFlags, snapshot]
+    cases hst : s.st i with
+    | done => exact absurd hst hd
+    | idle => rfl
+    | out =>
+      rcases hc.1 with h1 | h1
+      · simp [h1]
+      · exact absurd hst (h1 i)
+    | failed =>
+      rcases hc.2 with h1 | h1
+      · simp [h1]
+      · exact absurd hst (h1 i)
+  · simp [resumeFrom, resumeInit, init]
+
+/-! ### who writes the recovery file -/
+
+/-- the ownership tree is well founded: a depth that strictly decreases towards the root -/
+def Forest.Ranked (f : Forest) (depth : Nat → Nat) : Prop :=
+  ∀ n p, f.parent n = some p → depth p < depth n
+
+theorem Forest.root_parent_none (f : Forest) (depth : Nat → Nat) (hr : f.Ranked depth) :
+    ∀ fuel n, depth n ≤ fuel → f.parent (f.root fuel n) = none := by
+  intro fuel
+  induction fuel with
+  | zero =>
+    intro n hn
+    simp only [Forest.root]
+    cases hp : f.parent n with
+    | none => rfl
+    | some p => have := hr n p hp; omega
+  | succ fuel ih =>
+    intro n hn
+    simp only [Forest.root]
+    cases hp : f.parent n with
+    | none => simpa using hp
+    | some p =>
+      have := hr n p hp
+      exact ih p (by omega)
+
+theorem Forest.root_mem_chain (f : Forest) : ∀ fuel n, f.root fuel n ∈ f.chain fuel n := by
+  intro fuel
+  induction fuel with
+  | zero => intro n; simp [Forest.root, Forest.chain]
+  | succ fuel ih =>
+    intro n
+    simp only [Forest.root, Forest.chain]
+    cases hp : f.parent n with
+    | none => simp
+    | some p => simp [ih p]
+
+/-- the only parentless node on the way up is the root -/
+theorem Forest.chain_parentless (f : Forest) :
+    ∀ fuel n m, m ∈ f.chain fuel n → f.parent m = none → m = f.root fuel n := by
+  intro fuel
+  induction fuel with
+  | zero => intro n m hm _; simpa [Forest.root, Forest.chain] using hm
+  | succ fuel ih =>
+    intro n m hm hpm
+    simp only [Forest.root, Forest.chain] at hm ⊢
+    cases hp : f.parent n with
+    | none => simpa [hp] using hm
+    | some p =>
+      simp only [hp, List.mem_cons] at hm
+      rcases hm with e | hm
+      · subst e; rw [hp] at hpm; cases hpm
+      · exact ih p m hm hpm
+
+theorem Forest.root_eq_self_iff (f : Forest) (depth : Nat → Nat) (hr : f.Ranked depth)
+    (fuel n : Nat) (hn : depth n ≤ fuel) : f.root fuel n = n ↔ f.parent n = none := by
+  constructor
+  · intro h
+    have := f.root_parent_none depth hr fuel n hn
+    rwa [h] at this
+  · intro h
+    cases fuel with
+    | zero => rfl
+    | succ fuel => simp [Forest.root, h]
+
+theorem filter_eq_singleton (l : List Nat) (p : Nat → Bool) (r : Nat) (hn : l.Nodup) (hr : r ∈ l)
+    (hp : ∀ n ∈ l, p n = true ↔ n = r) : l.filter p = [r] := by
+  induction l with
+  | nil => cases hr
+  | cons a l ih =>
+    obtain ⟨hal, hnl⟩ := List.nodup_cons.mp hn
+    by_cases har : a = r
+    · subst har
+      have hpa : p a = true := (hp a (by simp)).mpr rfl
+      have hrest : l.filter p = [] := by
+        apply List.filter_eq_nil_iff.mpr
+        intro x hx hpx
+        have := (hp x (by simp [hx])).mp hpx
+        subst this; exact hal hx
+      simp [List.filter, hpa, hrest]
+    · have hpa : p a = false := by
+        cases h : p a with
+        | false => rfl
+        | true => exact absurd ((hp a (by simp)).mp h) har
+      have hr' : r ∈ l := by
+        rcases List.mem_cons.mp hr with e | h
+        · exact absurd e.symm har
+        · exact h
+      have := ih hnl hr' (fun n hn' => hp n (by simp [hn']))
+      simp [List.filter, hpa, this]
+
 end PwVerif.Recovery
